@@ -145,6 +145,46 @@ def run_cfg(chk, cfg, mode, drv_lines, keep, all_faults=True):
         shutil.rmtree(tmp, ignore_errors=True)
 
 
+class _ResumeFromFileOnly:
+    """view of the check object that keeps, of the C12 machinery's findings, only the fourth resume route of C11
+    (`Aspire.resume_from_file` finishes like the uninterrupted run); everything else is C12's own subject"""
+
+    KEEP = ("resume-from-file finishes like the uninterrupted run", "loadable by the documented resume route")
+
+    def __init__(self, chk):
+        self._chk = chk
+
+    def fail(self, clause, case, detail, signature=None):
+        if clause in self.KEEP:
+            self._chk.fail("resumed run equals the uninterrupted run" if clause == self.KEEP[0] else "resumed run completes",
+                           dict(case, route="resume_from_file"), detail, {**(signature or {}), "route": "resume_from_file"})
+
+    def count(self, key, k=1):
+        self._chk.count("file_route:" + key, k)
+
+    def case(self, desc, key=None):
+        self._chk.case(None, None if key is None else "file_route:" + key)
+
+    def __getattr__(self, name):
+        return getattr(self._chk, name)
+
+
+def check_resume_from_file(chk, r, n):
+    """route 4: interrupt a run that writes to a checkpoint file (explicit path, context, earlier work in the same context, periodic
+    parameters), rebuild the object with Aspire.resume_from_file, finish with the default arguments"""
+    from . import c12
+
+    view = _ResumeFromFileOnly(chk)
+    base = {"seed": 62965, "dims": 2, "n_samples": 12, "kernel_steps": 2, "every": 1, "like_width": 0.6, "pre_existing": False,
+            "fault_kind": "exception", "periodic": False}
+    corpus = [dict(base, route="auto", auto_pre="refit"), dict(base, route="auto", auto_pre="refit", periodic=True, seed=4711),
+              dict(base, route="path", auto_pre="none", periodic=True), dict(base, route="auto", auto_pre="importance", every=2, n_final_samples=6)]
+    for cfg in corpus:
+        c12.check_cfg(view, cfg, all_faults=True)
+    for i in range(n):
+        c12.check_cfg(view, c12.gen_cfg(r, i), all_faults=True)
+
+
 def run(chk: core.Check):
     r = np.random.default_rng(chk.seed + 11011)
     quick = chk.tier == "quick"
@@ -159,6 +199,7 @@ def run(chk: core.Check):
     for i in range(30 if quick else 300):
         cfg, mode = gen_cfg(r, i)
         run_cfg(chk, cfg, mode, lines, keep, all_faults=True)
+    check_resume_from_file(chk, r, 8 if quick else 60)
     reps = drv.batch(lines)
     for (case, R, from_iter, done_iters, ev), rep in zip(keep, reps):
         if not rep.ok:
